@@ -83,6 +83,10 @@ def make(rng):
         if len(ign) == len(elems): ign = []
         if ign:
             kw["elements_to_ignore"] = ign
+    # documented domain: at least one non-ignored weighted element
+    live = [x for x in (G.nodes() if node else G.edges()) if x not in ign and "flow" in (G.nodes[x] if node else G.edges[x])]
+    if not live:
+        kw.pop("elements_to_ignore", None); ign = []
     kw["optimization_options"] = dict(rng.choice(OPTS))
     info.update({"G": G, "kwargs": kw, "cons": cons, "ignore": ign, "paths": paths, "weights": ws})
     return info
